@@ -364,7 +364,7 @@ func statsEval(c *Ctx, fnName string) (*Evaluator, []*Path, *ssa.Function, bool)
 		c.Unresolved(fnName, "not found")
 		return nil, nil, nil, false
 	}
-	ev := NewEvaluator(c.P, EvalConfig{Inline: func(f *ssa.Function, d int) bool { return f.Name() == "exceedsMaxWaitTime" }})
+	ev := NewEvaluator(c.P, EvalConfig{Inline: func(f *ssa.Function, d int) bool { return canonName(f) == "exceedsMaxWaitTime" }})
 	ps := ev.Run(fn)
 	if ev.Err != nil || len(ps) == 0 {
 		c.Undecided(fnName, c.P.FuncPos(fn), fmt.Sprintf("evaluation failed: %v", ev.Err), "")
@@ -637,7 +637,7 @@ func c05Builders(c *Ctx) {
 				continue
 			}
 			tn := namedOfPtr(st.Typ)
-			if tn == nil || (smooth == triT && tn.Obj().Name() != "smoothStats") || (smooth == triF && tn.Obj().Name() != "burstyStats") {
+			if tn == nil || (smooth == triT && typeCanonName(tn.Obj()) != "smoothStats") || (smooth == triF && typeCanonName(tn.Obj()) != "burstyStats") {
 				ok = false
 				c.Fail(c.fn(fn), c.P.FuncPos(fn), "interval≠0 ⇒ smooth stats, else bursty stats", pathTrace(ev, p))
 				continue
@@ -718,7 +718,7 @@ func c13GetDelay(c *Ctx) {
 	name, pos := c.fn(fn), c.P.FuncPos(fn)
 	helpers := map[string]bool{"getFixedOrRandomDelay": true, "adjustForJitter": true, "adjustForMaxDuration": true}
 	ee := c.NewExecEval(info, EvalConfig{Inline: func(f *ssa.Function, d int) bool {
-		return c.P.InScope[f] && f.Pkg != nil && f.Pkg.Pkg.Name() == "retrypolicy" && (helpers[f.Name()] || f.Signature.Recv() != nil && f != fn && f.Name() != "ComputeDelay" && namedOfPtr(f.Signature.Recv().Type()) != nil && namedOfPtr(f.Signature.Recv().Type()).Obj().Name() == "executor")
+		return c.P.InScope[f] && f.Pkg != nil && f.Pkg.Pkg.Name() == "retrypolicy" && (helpers[canonName(f)] || f.Signature.Recv() != nil && f != fn && f.Name() != "ComputeDelay" && namedOfPtr(f.Signature.Recv().Type()) != nil && namedOfPtr(f.Signature.Recv().Type()).Obj().Name() == "executor")
 	}})
 	ev, ts := ee.Ev, ee.Ev.TS
 	exec := ee.Sym("exec", fn.Params[1].Type())
